@@ -18,6 +18,8 @@ mod logger;
 mod search;
 mod testing_utils;
 mod uci;
+#[cfg(rce_verif)]
+mod verif_hooks;
 
 use std::env;
 
